@@ -23,8 +23,8 @@ MANIFEST = dict(
 
 TMO = {"quick": 240, "thorough": 800, "replay": 240}
 CFG = {
-    "quick":    dict(mc=["MC_ConfText.cfg", "MC_ConfText_u.cfg"], gen="Gen_ConfText.cfg", ndocs=40, nitems=12),
-    "thorough": dict(mc=["MC_ConfText_t.cfg", "MC_ConfText_tu.cfg"], gen="Gen_ConfText_t.cfg", ndocs=400, nitems=30),
+    "quick":    dict(mc=["MC_ConfText.cfg", "MC_ConfText_u.cfg"], gen="Gen_ConfText.cfg", names="Gen_ConfText_n.cfg", ndocs=40, nitems=12),
+    "thorough": dict(mc=["MC_ConfText_t.cfg", "MC_ConfText_tu.cfg"], gen="Gen_ConfText_t.cfg", names="Gen_ConfText_n.cfg", ndocs=400, nitems=30),
 }
 
 
@@ -165,6 +165,8 @@ SHIPPED = [
     (list(b"<x> = "), [0]),
     (list(b"{_} = "), list(b"ns")),
     (list(b"{_} =;"), [0]),
+    (list(b"[ ]   #"), [0]),
+    (list(b"[_]   #"), list(b"ns")),
     (list(b"(*)@:,;% '"), list(b"ENSWnsw")),
     (list(b"[ ]\t=\t;"), [0]),
     (list(b"|x| = "), list(b"NSns")),
@@ -315,7 +317,12 @@ def run(tier):
         g = tlc_retry("Gen_ConfText", cfg["gen"], TMO[tier], workers=4, env=genv)
         if g.error or g.violation:
             raise vlib.MachineryError("case export failed: %s %s" % (g.error, g.violation))
-        return vlib.parse_behaviours(g.out), g
+        # names across the allocation steps of the path buffer in every format family
+        g2 = tlc_retry("Gen_ConfText", cfg["names"], TMO[tier], workers=2, env=genv, tag="Gen_ConfText_n")
+        if g2.error or g2.violation:
+            raise vlib.MachineryError("long-name case export failed: %s %s" % (g2.error, g2.violation))
+        g.generated += g2.generated
+        return vlib.parse_behaviours(g.out) + vlib.parse_behaviours(g2.out), g
 
     docs = gen_docs(ck, cfg["ndocs"], cfg["nitems"])
 
